@@ -24,12 +24,32 @@ def evaluate(case):
     else:
         fails += common.failures_from(PROP, alg, preds.cover_problems(p, o.value, C))
         nb, used = len(o.value), sum(len(b) for b in o.value)
+    # the same call through the output types that keep only sums (another bins-manager): still bins of at least the bin size, made of
+    # input value, leaving less than one bin size unused
+    total = sum(values)
+    for ot in case.get("outputtypes", ["Sums", "BinCount"]):
+        p2, o2 = sut.run_case(case, ot)
+        if not o2.ok:
+            fails.append(Failure(f"{PROP}/{alg}/{ot}:exception:{o2.exc_type}@{o2.where}", o2.describe()))
+            continue
+        if ot == "BinCount":
+            # n covered bins use at least n * binsize (that the count equals the number of returned bins is C06's statement, not this one's)
+            if o2.value * C > total:
+                fails.append(Failure(f"{PROP}/{alg}/BinCount:more-bins-than-the-total-can-cover", {"bins": o2.value, "total": total}))
+        else:
+            sums = list(o2.value)
+            if any(s_ < C for s_ in sums):
+                fails.append(Failure(f"{PROP}/{alg}/{ot}:bin-not-covered", {"sums": sut.jsonable(sums)}))
+            if sum(sums) > total:
+                fails.append(Failure(f"{PROP}/{alg}/{ot}:sums-exceed-the-input", {"sums": sut.jsonable(sums), "total": total}))
+            elif total - sum(sums) >= C:
+                fails.append(Failure(f"{PROP}/{alg}/{ot}:a-whole-bin-size-left-unused", {"sums": sut.jsonable(sums), "total": total}))
     # non-trivial (measured on the reference model, not on the code under test): >= 1 bin covered, >= 1 item left over
     ref = refmodels.REFERENCE[alg](values, C)
     nontrivial = len(ref) >= 1 and sum(len(b) for b in ref) < len(values)
     if sum(values) < C:
         labels.append("too-small-to-cover")
-    return Result(fails, labels, nontrivial, None, o.describe() if not o.ok else {"bins": sut.jsonable(o.value)})
+    return Result(fails, labels, nontrivial, None, o.describe() if not o.ok else {"bins": sut.jsonable(o.value)}, subcases=3)
 
 
 @st.composite
